@@ -70,6 +70,9 @@ def run(case):
     allq = qarr(keys, kd)
     uq = qarr(universe, kd)
     tables = {"t": (t, model)}     # derived tables join the history
+    # an unrelated table (other keys, other modulus, other key dtype) lives alongside: tables must not share state
+    okeys = [11, 4, 97, 60]
+    other = lib.HashTable(np.array(okeys, dtype=np.int16), np.array([1.5, 2.5, 3.5, 4.5]), mod=5)
     written = False
     nontrivial = len(keys) >= 2 and len(case["ops"]) >= 2
 
@@ -80,6 +83,9 @@ def run(case):
         e = [md[k] for k in keys]
         if not a.ok or len(a.value) != len(e) or not all(eqval(x, y) for x, y in zip(a.value, e)):
             return "after step %s, table '%s' reads %s for all keys %s, the dictionary says %s" % (step, name, repr(a) if not a.ok else short(a.value, 160), short(keys, 100), short(e, 160))
+        o2 = attempt(lambda: (np.asarray(other[np.array(okeys, dtype=np.int16)]).tolist(), np.asarray(other.contains(np.array([11, 12, 60], dtype=np.int16))).tolist()))
+        if not o2.ok or o2.value != ([1.5, 2.5, 3.5, 4.5], [True, False, True]):
+            return "after step %s an unrelated table reads %s" % (step, repr(o2) if not o2.ok else o2.value)
         CTX.tick("c11:keyset")
         a = attempt(lambda: np.asarray(tb.contains(uq)).tolist())
         if not a.ok or a.value != member:
